@@ -796,7 +796,9 @@ class Builder:
         exit_label = self._label_mgr.new_label(start_with="IF_EXIT")
         if_start: List[ICmd] = []
 
-        using_new_temp_reg = False
+        # A Future operand is loaded into a temporary register, which is only
+        # needed for the branch instruction itself.
+        using_new_temp_reg = isinstance(op, Future)
 
         cmds, cond_operand = self._get_condition_operand(op)
         if_start.extend(cmds)
